@@ -152,6 +152,9 @@ pub struct Plan {
     pub enumerate: Option<usize>,
     /// get_process_pid calls can be chosen as the failing call (else only the other OS/RPC calls are numbered)
     pub pid_lookup_faults: bool,
+    /// a process that dies in the middle of an invocation (`die_at`) is restarted at once by the OS under a new pid
+    #[serde(default)]
+    pub respawn: bool,
     pub steps: Vec<Step>,
 }
 
@@ -431,6 +434,7 @@ fn gen_c19(rng: &mut Rng, ctx: &GenCtx) -> Plan {
         all_prefixes: ctx.tier == Tier::Thorough,
         enumerate,
         pid_lookup_faults,
+        respawn: fault && rng.chance(1, 3),
         steps,
     }
 }
@@ -528,6 +532,7 @@ fn gen_c20(rng: &mut Rng, ctx: &GenCtx) -> Plan {
         all_prefixes: false,
         enumerate: None,
         pid_lookup_faults: faulty && rng.chance(1, 4),
+        respawn: false,
         steps,
     }
 }
